@@ -12,8 +12,9 @@ None == 1000
 Valid     == {1, 2, 3, 4}
 Coercible == {11, 12, 13}
 Invalid   == {99}
-VModes    == {"id", "coerce"}
-Accepts(vm, x) == vm = "id" \/ x \in Valid \cup Coercible
+VModes    == {"id", "coerce", "strict"}
+\* "id": no validation; "coerce": casts Coercible items; "strict": only Valid items
+Accepts(vm, x) == vm = "id" \/ x \in Valid \/ (vm = "coerce" /\ x \in Coercible)
 V(vm, x)       == IF vm = "coerce" /\ x \in Coercible THEN x - 10 ELSE x
 
 \* ---- ordered dict primitives
